@@ -261,7 +261,16 @@ class RunResult(object):
 
 
 def _alarm(signum, frame):
-    raise RunTimeout('run exceeded wall watchdog')
+    raise RunTimeout('run exceeded its CPU-time watchdog')
+
+
+class WallTimeout(BaseException):
+    """Backstop: the run neither finished nor used up its CPU budget within a long wall time (blocked, or the machine is
+    overloaded).  Never a verdict - a harness error."""
+
+
+def _wall_alarm(signum, frame):
+    raise WallTimeout()
 
 
 def execute(profile, plan, keep_lines=False, watchdog=60):
@@ -269,8 +278,12 @@ def execute(profile, plan, keep_lines=False, watchdog=60):
     res = RunResult()
     profile = profile.__class__()      # no state may leak from one run into the next
     world = World(profile, plan)
-    old = signal.signal(signal.SIGALRM, _alarm)
-    signal.setitimer(signal.ITIMER_REAL, watchdog)
+    # "terminates" is judged on CPU time consumed by this process (a run normally needs well under a second), so that an
+    # overloaded machine cannot turn slowness into a verdict; wall time is only a backstop and only ever a harness error
+    old = signal.signal(signal.SIGPROF, _alarm)
+    old_wall = signal.signal(signal.SIGALRM, _wall_alarm)
+    signal.setitimer(signal.ITIMER_PROF, watchdog)
+    signal.setitimer(signal.ITIMER_REAL, watchdog * 30)
     try:
         with world:
             try:
@@ -296,12 +309,17 @@ def execute(profile, plan, keep_lines=False, watchdog=60):
     except RunTimeout:
         res.verdict = 'harness_error'
         res.error = 'watchdog timeout (teardown)'
+    except WallTimeout:
+        res.verdict = 'harness_error'
+        res.error = 'wall-clock backstop reached at op %d (blocked or overloaded machine; not a verdict)' % world.op_index
     except Exception:
         res.verdict = 'harness_error'
         res.error = traceback.format_exc()
     finally:
+        signal.setitimer(signal.ITIMER_PROF, 0)
         signal.setitimer(signal.ITIMER_REAL, 0)
-        signal.signal(signal.SIGALRM, old)
+        signal.signal(signal.SIGPROF, old)
+        signal.signal(signal.SIGALRM, old_wall)
     res.digest = world.digest()
     res.stats = world.stats
     res.states = world.states
@@ -331,12 +349,15 @@ def same_failure(res, viol):
 
 def minimise(profile, plan, viol, budget=300):
     tries = [0]
+    hang = viol.get('oracle') == 'terminates'
+    if hang:
+        budget = 14         # every failing candidate burns a whole watchdog period: cut to the failing op, a few halvings, stop
 
     def fails(p):
         if tries[0] >= budget:
             return False
         tries[0] += 1
-        return same_failure(execute(profile, p), viol)
+        return same_failure(execute(profile, p, watchdog=20 if hang else 60), viol)
 
     def with_ops(ops):
         q = dict(plan)
